@@ -12,6 +12,7 @@
 #include "wv_sync.h"
 #include "wv_json.h"
 #include "multicry.h"
+#include <type_traits>
 #include <unistd.h>
 
 using namespace wv;
@@ -452,7 +453,16 @@ static std::string block_json(const u8_t *b)
 
 struct wv_probe
 {
-  static buffergroup *grp() { return buffergroup::instance; }
+  // works whether the singleton is held in a raw pointer or in a smart pointer
+  template <class P>
+  static buffergroup *raw(P &p)
+  {
+    if constexpr (std::is_pointer_v<P>)
+      return p;
+    else
+      return p.get();
+  }
+  static buffergroup *grp() { return raw(buffergroup::instance); }
   static std::string state_json(bool terminal)
   {
     buffergroup *g = grp();
